@@ -53,7 +53,7 @@ def validate_translation(res, fn_name, st, ky, out_terms, kwargs, table_axioms):
     for arr, nm in ((st, 's'), (ky, 'k')):
         vals = []
         for t in S.terms(arr):
-            v = r.randrange(256)
+            v = r.randrange(128 if arr.dtype == rnp.int8 else 256)
             vals.append(v)
             pairs.append((t, z3.BitVecVal(v, t.size())))
         conc[nm] = rnp.array(vals, dtype=arr.dtype).reshape(arr.shape)
@@ -84,7 +84,7 @@ def jobs(tier, seed):
             for sh in shapes:
                 dts = ['uint8']
                 if tier == 'thorough' or sh == '11':
-                    dts += ['int16', 'int64']
+                    dts += ['int8', 'int16', 'int64']          # int8 holds the byte values 0..127
                 for dt in dts:
                     js.append(dict(name=f'L2-{mode}-k{klen}-{sh}-{dt}', kind='flow', klen=klen, mode=mode, shape=sh, dtype=dt, n=2))
             if tier == 'thorough':
@@ -155,8 +155,9 @@ def _sym_state(name, shape, dt, pr_assume):
     a = S.sym_bv(name, shape, dt)
     if rnp.dtype(dt) != rnp.uint8:
         w = rnp.dtype(dt).itemsize * 8
+        hi = min(255, (1 << (w - 1)) - 1) if rnp.dtype(dt).kind == 'i' else 255
         for t in S.terms(a):
-            pr_assume(z3.And(t >= 0, t <= 255) if rnp.dtype(dt).kind == 'i' else z3.ULE(t, z3.BitVecVal(255, w)))
+            pr_assume(z3.And(t >= 0, t <= hi) if rnp.dtype(dt).kind == 'i' else z3.ULE(t, z3.BitVecVal(255, w)))
     return a
 
 
@@ -175,14 +176,19 @@ def job_prims(job, res):
         krows = [S.terms(ky)[i:i + 16] for i in range(0, ky.size, 16)]
         for nm, rf in (('sub_bytes', ref.sub_bytes), ('inv_sub_bytes', ref.inv_sub_bytes), ('shift_rows', ref.shift_rows),
                        ('inv_shift_rows', ref.inv_shift_rows), ('mix_columns', ref.mix_columns), ('inv_mix_columns', ref.inv_mix_columns)):
+            st = S.sym_bv('s', shape)             # a fresh array (same symbols) per primitive: nothing one call does to its argument reaches the next
             before = S.terms(st)
             out = getattr(_aes, nm)(st)
             exp = sum((rf(r) for r in rows), [])
             pr.prove(z3.Not(any_differs(S.terms(out), exp)), f'aes.{nm}(state{shape}) == FIPS {nm} for all states',
                      lambda m, nm=nm, st=st: dict(kind='prim', fn=nm, state=model_bytes(m, st), key=dict(kind='prim', fn=nm)))
             pr.prove(z3.BoolVal(out.shape == shape and frame_unchanged(before, st)), f'aes.{nm}: result shape {shape}, argument not modified',
-                     lambda m, nm=nm: dict(kind='frame', fn=nm, key=dict(kind='frame', fn=nm)))
+                     lambda m, nm=nm, shape=shape: dict(kind='frame', fn=nm, shape=list(shape), key=dict(kind='frame', fn=nm)))
+        st = S.sym_bv('s', shape)
+        before, beforek = S.terms(st), S.terms(ky)
         out = _aes.add_round_key(st, ky)
+        pr.prove(z3.BoolVal(out.shape == shape and frame_unchanged(before, st) and frame_unchanged(beforek, ky)), f'aes.add_round_key: result shape {shape}, arguments not modified',
+                 lambda m, shape=shape: dict(kind='frame', fn='add_round_key', shape=list(shape), key=dict(kind='frame', fn='add_round_key')))
         exp = sum((ref.add_round_key(r, k) for r, k in zip(rows, krows)), [])
         pr.prove(z3.Not(any_differs(S.terms(out), exp)), f'aes.add_round_key(state{shape}, keys{shape}) == xor',
                  lambda m, st=st, ky=ky: dict(kind='prim', fn='add_round_key', state=model_bytes(m, st), keys=model_bytes(m, ky), key=dict(kind='prim', fn='add_round_key')))
@@ -244,7 +250,12 @@ def job_flow(job, res):
                 desc = f'aes.{mode}(state{sshape} {job["dtype"]}, key{kshape}, at_round={r}, after_step={s}) == FIPS-197 state #{pos}'
             exp = sum((stt[pos] for stt in states), [])
             got = S.terms(out)
-            ok_shape = tuple(out.shape) == ((16,) if (len(sshape) == 1 and len(kshape) == 1) else (nout, 16)) and out.dtype == rnp.uint8
+            ok_shape = tuple(out.shape) == ((16,) if (len(sshape) == 1 and len(kshape) == 1) else (nout, 16)) and out.dtype.kind in 'iu'
+            if ok_shape and out.dtype != rnp.uint8:
+                # the property speaks of values, not of the result dtype: compare as integers (a negative element is not a byte of the state)
+                wd = out.dtype.itemsize * 8 + 8
+                got = [(z3.SignExt(wd - t.size(), t) if out.dtype.kind == 'i' else z3.ZeroExt(wd - t.size(), t)) if E.is_sym(t) else z3.BitVecVal(int(t), wd) for t in got]
+                exp = [z3.ZeroExt(wd - 8, e) if E.is_sym(e) else z3.BitVecVal(int(e), wd) for e in exp]
             res['obligations'] += 1
             res['nontrivial'] += 1
             if not ok_shape or len(got) != len(exp):
@@ -273,7 +284,7 @@ def job_flow(job, res):
         if frame_unchanged(b_st, st) and frame_unchanged(b_ky, ky):
             res['discharged'] += 1
         else:
-            res['failures'].append(dict(kind='frame', fn=mode, what=f'aes.{mode} modified its argument arrays', key=dict(kind='frame', fn=mode)))
+            res['failures'].append(dict(kind='frame', fn=mode, klen=klen, what=f'aes.{mode} modified its argument arrays', key=dict(kind='frame', fn=mode)))
         res['obligations'] += 1
         side = [c for k, c in CTX.side if k == 'index']
         v, _ = ex.prove(z3.And(*side)) if side else ('unsat', None)
@@ -382,9 +393,31 @@ def replay(w):
         else:
             bad = [i for i in range(256) if i >= len(real) or int(real[i]) != exp[t][i]]
         return dict(reproduced=bool(bad), detail=f'{t}: entries differing from FIPS-197 at indexes {bad[:8]}')
-    if w['kind'] == 'frame':
-        return dict(reproduced=False, detail='frame violations are only reported from the symbolic run')
     rnd = random.Random(1)
+    if w['kind'] == 'frame':
+        fn = w['fn']
+        shapes = [tuple(w['shape'])] if w.get('shape') else [(16,), (2, 16)]
+        for shp in shapes:
+            for _ in range(8):
+                a = np.array([rnd.randrange(256) for _ in range(int(np.prod(shp)))], dtype=np.uint8).reshape(shp)
+                if fn in ('encrypt', 'decrypt'):
+                    klen = w.get('klen', 16)
+                    k = np.array([rnd.randrange(256) for _ in range(klen)], dtype=np.uint8)
+                    a0, k0 = a.copy(), k.copy()
+                    getattr(aes, fn)(a, k)
+                    getattr(aes, fn)(a, k, at_round=1, after_step=2)
+                    if (a != a0).any() or (k != k0).any():
+                        return dict(reproduced=True, detail=f'aes.{fn} modified its argument arrays: state {a0.tolist()} -> {a.tolist()}, key {k0.tolist()} -> {k.tolist()}')
+                    continue
+                k = np.array([rnd.randrange(256) for _ in range(int(np.prod(shp)))], dtype=np.uint8).reshape(shp)
+                a0, k0 = a.copy(), k.copy()
+                try:
+                    aes.add_round_key(a, k) if fn == 'add_round_key' else getattr(aes, fn)(a)
+                except Exception as e_:
+                    return dict(reproduced=True, detail=f'aes.{fn} raised {type(e_).__name__}: {e_} on a valid state {a0.tolist()}')
+                if (a != a0).any() or (k != k0).any():
+                    return dict(reproduced=True, detail=f'aes.{fn}(state) modified the caller\'s array: {a0.tolist()} became {a.tolist()}')
+        return dict(reproduced=False, detail='the real function leaves its arguments unchanged on 16 seeded calls')
 
     def ref_rows(fn, rows):
         return [fn(list(r)) for r in rows]
@@ -431,8 +464,9 @@ def replay(w):
         tries.append((w['state'], w['keyv']))
     sshape = np.array(w['state']).shape if w.get('state') is not None else (16,)
     kshape = np.array(w['keyv']).shape if w.get('keyv') is not None else (klen,)
+    top = 128 if w.get('dtype') == 'int8' else 256
     for _ in range(64):
-        tries.append((np.array([rnd.randrange(256) for _ in range(int(np.prod(sshape)))]).reshape(sshape).tolist(),
+        tries.append((np.array([rnd.randrange(top) for _ in range(int(np.prod(sshape)))]).reshape(sshape).tolist(),
                       np.array([rnd.randrange(256) for _ in range(int(np.prod(kshape)))]).reshape(kshape).tolist()))
     for n, (st, kv) in enumerate(tries):
         a = np.array(st, dtype=w.get('dtype', 'uint8'))
@@ -459,8 +493,9 @@ def replay(w):
             sts = (cref.cipher_states if mode == 'encrypt' else cref.inv_cipher_states)(srows[i] if len(srows) > 1 else srows[0], krows[i] if len(krows) > 1 else krows[0])
             pos = len(sts) - 1 if r is None else (F.enc_position if mode == 'encrypt' else F.dec_position)(nr, r, s)
             exp.append(sts[pos])
-        exp = np.array(exp, dtype=np.uint8)
-        g = np.array(got).reshape(-1, 16) if np.array(got).size == exp.size else np.array(got)
+        exp = np.array(exp, dtype=np.int64)
+        g = np.array(got).astype(np.int64)
+        g = g.reshape(-1, 16) if g.size == exp.size else g
         if g.shape != exp.shape or (g != exp).any():
             return dict(reproduced=True, route='solver model' if n == 0 and w.get('state') is not None else 'seeded input after the solver reported differing terms',
                         detail=f'aes.{mode}(state={a.tolist()}, key={k.tolist()}, at_round={r}, after_step={s}) = {np.array(got).tolist()} but FIPS-197 gives {exp.tolist()}')
